@@ -42,21 +42,46 @@ Definition rnode_of (e : rnode) : node float float :=
 Definition cnode_of (e : cnode) : node float nat :=
   let '(o, f, sv, ss, tc, fc) := e in mkNode (N.to_nat o) (N.to_nat f) sv ss (onat tc) (onat fc).
 
+(* ---- run-time validation of the hypothesis `sorted_order` of the leaf-value theorems: the orders
+        the model computes are permutations of the rows that sort the feature column ---- *)
+Definition sortedb (col : list float) (idx : list nat) : bool :=
+  match idx with
+  | [] => true
+  | a :: t => snd (fold_left (fun '(prev, ok) b =>
+                                (b, ok && PrimFloat.leb (nth prev col 0%float) (nth b col 0%float))) t (a, true))
+  end.
+Definition permb (n : nat) (idx : list nat) : bool :=
+  Nat.eqb (length idx) n && forallb (fun i => existsb (Nat.eqb i) idx) (seq 0 n).
+Definition orders_okb (x : list (list float)) : bool :=
+  forallb (fun j => match quick_argsort FOps (column FOps x j) with
+                    | None => false
+                    | Some idx => permb (length x) idx && sortedb (column FOps x j) idx
+                    end) (seq 0 (length (hd [] x))).
+
 (* ---- regressor: DecisionTreeRegressor::fit (expected = nodes and depth) ---- *)
 Definition corr_reg_fit (x : list (list float)) (y : list float) (md : option N) (msl mss : N)
            (expected : option (list rnode * N)) : bool :=
   match fit_regressor FOps x y (onat md) (N.to_nat msl) (N.to_nat mss), expected with
   | None, None => true
-  | Some (nodes, depth), Some (en, ed) => list_eq2 rnode_eq nodes en && N.eqb (N.of_nat depth) ed
+  | Some (nodes, depth), Some (en, ed) =>
+      list_eq2 rnode_eq nodes en && N.eqb (N.of_nat depth) ed && orders_okb x && wf_treeb nodes
   | _, _ => false
   end.
-(* fit_weak_learner with explicit sample counts, mtry = all features (cfg hook) *)
-Definition corr_reg_fit_w (x : list (list float)) (y : list float) (samples : list N) (md : option N)
+(* fit_weak_learner with explicit sample counts and the features tried at each node as recorded by
+   the cfg hook VERIF_TREE_VARS (node id -> first mtry entries of the shuffled feature list) *)
+Definition vars_of (p : nat) (tab : list (N * list N)) (id : nat) : list nat :=
+  match find (fun e => N.eqb (fst e) (N.of_nat id)) tab with
+  | Some e => to_nats (snd e)
+  | None => seq 0 p
+  end.
+Definition corr_reg_fit_w (x : list (list float)) (y : list float) (samples : list N)
+           (vars : list (N * list N)) (md : option N)
            (msl mss : N) (expected : option (list rnode * N)) : bool :=
-  match fit_regressor_weak FOps x y (to_nats samples) (fun _ => seq 0 (length (hd [] x)))
+  match fit_regressor_weak FOps x y (to_nats samples) (vars_of (length (hd [] x)) vars)
                            (onat md) (N.to_nat msl) (N.to_nat mss), expected with
   | None, None => true
-  | Some (nodes, depth), Some (en, ed) => list_eq2 rnode_eq nodes en && N.eqb (N.of_nat depth) ed
+  | Some (nodes, depth), Some (en, ed) =>
+      list_eq2 rnode_eq nodes en && N.eqb (N.of_nat depth) ed && wf_treeb nodes
   | _, _ => false
   end.
 
@@ -81,24 +106,20 @@ Definition cls_result_eq (r : option (list float * list (node float nat) * nat))
   match r, expected with
   | None, None => true
   | Some (classes, nodes, depth), Some (ec, en, ed) =>
-      flist_eq classes ec && list_eq2 cnode_eq nodes en && N.eqb (N.of_nat depth) ed
+      flist_eq classes ec && list_eq2 cnode_eq nodes en && N.eqb (N.of_nat depth) ed && wf_treeb nodes
   | _, _ => false
   end.
 Definition corr_cls_fit (crit : N) (x : list (list float)) (y : list float) (md : option N) (msl mss : N)
            (tab : list (float * float)) (expected : option (list float * list cnode * N)) : bool :=
   cls_result_eq (fit_classifier FOps (flog2 tab) (crit_of crit) x y (onat md) (N.to_nat msl) (N.to_nat mss))
-                expected.
+                expected && orders_okb x.
 Definition corr_cls_fit_w (crit : N) (x : list (list float)) (y : list float) (samples : list N)
-           (md : option N) (msl mss : N)
+           (vars : list (N * list N)) (md : option N) (msl mss : N)
            (tab : list (float * float)) (expected : option (list float * list cnode * N)) : bool :=
   cls_result_eq (fit_classifier_weak FOps (flog2 tab) (crit_of crit) x y (to_nats samples)
-                                     (fun _ => seq 0 (length (hd [] x)))
+                                     (vars_of (length (hd [] x)) vars)
                                      (onat md) (N.to_nat msl) (N.to_nat mss))
                 expected.
-
-(* impurity alone (tolerance: the entropy uses the software logarithm here) *)
-Definition corr_impurity (crit : N) (count : list N) (n : N) (tol expected : float) : bool :=
-  feq_tol tol (impurity FOps (flog2 []) (crit_of crit) (to_nats count) (N.to_nat n)) expected.
 
 (* ---- predict on the implementation's own node arrays; the tree must satisfy the
         well-formedness hypothesis of the routing theorem ---- *)
